@@ -14,19 +14,20 @@ from .core import RaiseEx
 
 
 class QueryV:
-    def __init__(self, table, joins=None, filters=None, env=None):
-        self.table, self.joins, self.filters = table, list(joins or []), list(filters or [])
+    def __init__(self, table, joins=None, filters=None, column=None):
+        self.table, self.joins, self.filters, self.column = table, list(joins or []), list(filters or []), column
         self.sort, self.cls, self.s = ("Query",), None, "query"
 
     def extended(self, joins=(), filters=()):
-        return QueryV(self.table, self.joins + list(joins), self.filters + list(filters))
+        return QueryV(self.table, self.joins + list(joins), self.filters + list(filters), self.column)
 
 
 class ORM:
-    def __init__(self, tables, col_sorts=None, session_names=("self.session", "session")):
+    def __init__(self, tables, col_sorts=None, session_names=("self.session", "session"), pks=None):
         self.tables = set(tables)
         self.col_sorts = col_sorts or {}
         self.session_names = session_names
+        self.pks = pks or {}
 
     # ---- declarations
     def row_sort(self, t):
@@ -113,9 +114,24 @@ class ORM:
         f = n.func
         if not isinstance(f, ast.Attribute):
             return NotImplemented
-        # session.query(Table)
+        # session.query(Table) / session.query(Table.column)
         if f.attr == "query" and ast.unparse(f.value) in self.session_names and len(n.args) == 1 and isinstance(n.args[0], ast.Name) and n.args[0].id in self.tables:
             return QueryV(n.args[0].id)
+        if (f.attr == "query" and ast.unparse(f.value) in self.session_names and len(n.args) == 1 and isinstance(n.args[0], ast.Attribute)
+                and isinstance(n.args[0].value, ast.Name) and n.args[0].value.id in self.tables):
+            return QueryV(n.args[0].value.id, column=n.args[0].attr)
+        # session.get(Table, primary_key)
+        if f.attr == "get" and ast.unparse(f.value) in self.session_names and len(n.args) == 2 and isinstance(n.args[0], ast.Name) and n.args[0].id in self.pks:
+            t = n.args[0].id
+            key = eng.ev(n.args[1], st, old)
+            q = QueryV(t, filters=[(self.pks[t], key)])
+            rs = self.row_sort(t)
+            r = eng.opaque("row", Opt(rs))
+            st.pc.append(f"(=> {is_some(r).s} {self.matches(eng, q, unopt(r), st, old, 'g%d' % eng.ctx.n)})")
+            qv = T(rs, f"|q_row{eng.ctx.n}|")
+            st.pc.append(f"(=> (not {is_some(r).s}) (forall (({qv.s} {rs})) (not {self.matches(eng, q, qv, st, old, 'h%d' % eng.ctx.n)})))")
+            eng.note("A-ORM", f"session.get({t}, pk)", n.lineno)
+            return r
         recv_is_query = False
         # cheap syntactic test: does the receiver chain bottom out in a query?
         base = f.value
@@ -123,7 +139,7 @@ class ORM:
             base = base.func.value
         if isinstance(base, ast.Name) and isinstance(st.env.get(base.id), QueryV):
             recv_is_query = True
-        if isinstance(base, ast.Attribute) and ast.unparse(base) in self.session_names:
+        if isinstance(base, (ast.Attribute, ast.Name)) and ast.unparse(base) in self.session_names:
             recv_is_query = isinstance(f.value, ast.Call)
         if not recv_is_query:
             return NotImplemented
@@ -159,6 +175,34 @@ class ORM:
         S = eng.opaque("rows", Set(rs))
         qv = T(rs, f"|q_row{eng.ctx.n}|")
         st.pc.append(f"(forall (({qv.s} {rs})) (= (select {S.s} {qv.s}) {self.matches(eng, q, qv, st, old, 'c%d' % eng.ctx.n)}))")
+        return S
+
+    def filter_in(self, eng, n, st, old):
+        """filter_in(query, Table.col, values): chunked `col IN values`; rows, or 1-tuples of the selected column for column queries"""
+        q = eng.ev(n.args[0], st, old)
+        vals = eng.ev(n.args[2], st, old)
+        col = n.args[1]
+        if not isinstance(q, QueryV) or not isinstance(vals, T):
+            return NotImplemented
+        rs = self.row_sort(q.table)
+        qv = T(rs, f"|q_fi{eng.ctx.n}|")
+        c = self.col(eng, q.table, col.attr, qv)
+        if vals.sort[0] == "Set":
+            member = f"(select {vals.s} {c.s})"
+        else:
+            member = f"(exists ((|q_vi| Int)) (and (>= |q_vi| 0) (< |q_vi| (seq.len {vals.s})) (= (seq.nth {vals.s} |q_vi|) {c.s})))"
+        cond = f"(and {self.matches(eng, q, qv, st, old, 'f%d' % eng.ctx.n)} {member})"
+        if q.column is None:
+            S = eng.opaque("rows_in", Set(rs))
+            st.pc.append(f"(forall (({qv.s} {rs})) (= (select {S.s} {qv.s}) {cond}))")
+            return S
+        csort = self.col_sorts.get((q.table, q.column), STR)
+        ts = ("Tup", csort)
+        eng.ctx.need(ts)
+        S = eng.opaque("cols_in", Set(ts))
+        sel = self.col(eng, q.table, q.column, qv)
+        tv = T(ts, "|q_tup|")
+        st.pc.append(f"(forall (({tv.s} {sort_smt(ts)})) (= (select {S.s} {tv.s}) (exists (({qv.s} {rs})) (and {cond} (= {tv.s} {mk_tup(eng.ctx, [sel]).s})))))")
         return S
 
     def iter_hook(self, eng, v, st):
